@@ -36,9 +36,14 @@ CFG = dict(
          "(valid and arbitrary strings) must return exactly what parse(s, None) returns and must not panic (tag fromstr=1; "
          "comparator custom:agree on the arbitrary strings, an extra marker cell elsewhere); `TimeDelta::from(&str)` must give "
          "the parsed value on accepted strings and its documented panic (never a value) on rejected ones. "
+         "Audit: Time::parse(s, Some(fmt)) for %H:%M:%S, %H:%M:%S.%f, %H%M%S, %H:%M on rendered times, leap seconds, out-of-range "
+         "fields, cross-format texts, short fractions and 600 mutations, compared exactly with the model time_parse_with; the Timelike "
+         "getter on the parsed leap second; Debug and Display text of Time, Debug text / String cast of TimeDelta, Debug text of "
+         "DateTime<U> (NaT, unrepresentable instants, ordinary instants), each compared exactly with its model and fed back to the "
+         "parser of its type (must be Err for Time and TimeDelta). "
          "Non-trivial = distinct non-empty inputs.",
-    theorem_hint="Props/C18.v: C18_total, C18_wellformed, C18_parse_accepts_grammar, C18_parse_rejects, C18_parse_whitespace_*, C18_datetime_roundtrip, C18_earlier_rule_unambiguous, C18_datetime_roundtrip_listed_all_years",
-    level_text="Proof: 17 theorems of Props/C18.v (axiom-free) about the Gallina model of the repaired TimeDelta::parse scanner "
+    theorem_hint="Props/C18.v: C18_wellformed_iff, C18_wellformed_run, C18_strftime_default_parse_back, C18_strftime_nano_total, C18_nat_text, C18_time_parse_hms, C18_total, C18_wellformed, C18_parse_accepts_grammar, C18_parse_rejects, C18_parse_whitespace_*, C18_datetime_roundtrip, C18_earlier_rule_unambiguous, C18_datetime_roundtrip_listed_all_years",
+    level_text="Proof: 42 theorems of Props/C18.v (axiom-free; the first 17 are described first, the 25 of the audit at the end) about the Gallina model of the repaired TimeDelta::parse scanner "
                "(for every string: no panic, fuel never exhausted; for every well-formed term list whose numbers, products and "
                "running sums stay in range: Ok of the sums; conversely every ACCEPTED string is a sequence of well-formed terms "
                "plus a degenerate tail (empty, or one character followed by digits only) and the value returned is the sum of "
@@ -52,11 +57,23 @@ CFG = dict(
                "rule rejects the text of format k (53 pairs) or reads the same instant (the pairs (4,7), (6,8)), proved through a "
                "sound abstraction of the parser to character classes whose finite check (55 pairs x 7 year shapes) is a "
                "vm_compute with the bound in the statement). Nothing is partial any more (the two theorems still named "
-               "_partial are the years-0000..9999 lemmas the full theorem was built from). The models are tied to the code by "
-               "the differential run described in `rule`.",
+               "_partial are the years-0000..9999 lemmas the full theorem was built from). "
+               "The audit (Proofs/Audit18.v, notes/C18.md 'Audit matrix') added: the three range premises of C18_wellformed are exactly "
+               "what the code rejects (C18_wellformed_iff: a well-formed string is accepted with the sum of its terms iff they hold, Err "
+               "otherwise; C18_wellformed_run: with no range premise the scanner on a well-formed string is the checked fold over its terms, "
+               "number first, then the unit's closure); the unit table (exactly the ten lower-case tokens; what each contributes); two "
+               "non-digits at the head (sign runs) are always Err; an i64-overflowing number anywhere is Err; strftime panics exactly on "
+               "non-NaT instants chrono cannot represent; whenever strftime(None) returns, parse(text, None) and parse(text, Some(default)) "
+               "return the instant with no hypothesis on year or fields, and at the default unit (ns) for EVERY non-NaT i64 (year bound by a "
+               "sweep of 213506 day numbers); NaT renders as \"NaT\" under every format, \"NaT\" is rejected by every rule, no valid date-time "
+               "renders as \"NaT\" under a listed format; models of Debug / Display (DateTime, Time, TimeDelta) whose text is never a duration; "
+               "a model of Time::parse with an explicit format (HH:MM:SS[.f] give the time of day; the leap second is accepted and yields a "
+               "Time of a whole day on which the getters panic — an observation). Still correspondence-only: Time::parse(s, None) "
+               "(chrono NaiveTime::from_str). The models are tied to the code by the differential run described in `rule`.",
     level_note="Trusted: Coq kernel; the hand-written scanner model (character positions instead of byte offsets); the models of "
                "i64::from_str, chrono Duration range checks, chrono format/parse_from_str for %Y %m %d %H %M %S %f, literals and "
-               "spaces; the harness and comparator. chrono's NaiveTime::from_str (Time::parse) is only exercised, not modelled.",
+               "spaces; the harness and comparator. chrono's NaiveTime::from_str (Time::parse(s, None)) is only exercised, not modelled; "
+               "Time::parse(s, Some(fmt)) is modelled through the same chrono parse / to_naive_time model; Debug of chrono::TimeDelta is derived ({ secs, nanos }).",
     trusted=["model of <i64 as FromStr>::from_str ([+-]?[0-9]+, range check)",
              "model of chrono::TimeDelta::{try_seconds, nanoseconds, checked_add, new} range checks",
              "model of chrono strftime formatting and format::parse for the items %Y %m %d %H %M %S %f, literals, space "
